@@ -176,13 +176,22 @@ def alias_class(fam, rng, s, rec, det, facts, how):
     ann = f"Optional[{base}]" if o["nullable"] else base
     dflt = "None" if o["nullable"] else ("datetime.date(2000, 1, 1)" if o["conv"] else "5")
     extra = ()
+    S_ = "S"
+    if rng.random() < 0.2:
+        # the key is given as a member of a str-based enum whose value is the string (keys kept in one enum is a common idiom)
+        try:
+            fam.module.KE = __import__("enum").Enum("KE", {"M": s}, type=str)
+            S_ = "KE.M"
+            facts["alias_is_str_enum_member"] = True
+        except Exception:
+            S_ = "S"
     if how == "meta":
-        fld = f"    x: {ann} = field(" + (f"default={dflt}, " if o["default"] else "") + "metadata=field_options(alias=S))"
+        fld = f"    x: {ann} = field(" + (f"default={dflt}, " if o["default"] else "") + f"metadata=field_options(alias={S_}))"
     elif how == "ann":
-        fld = f"    x: Annotated[{ann}, Alias(S)]" + (f" = {dflt}" if o["default"] else "")
+        fld = f"    x: Annotated[{ann}, Alias({S_})]" + (f" = {dflt}" if o["default"] else "")
     else:
         fld = f"    x: {ann}" + (f" = {dflt}" if o["default"] else "")
-        extra = ("aliases = {'x': S}",)
+        extra = (f"aliases = {{'x': {S_}}}",)
     ysrc = "    y: int = 1" if o["default"] else "    y: int"
     src = "@dataclass\nclass M(DataClassDictMixin):\n" + fld + "\n" + ysrc + "\n" + alias_config(o, extra)
     if not build(fam, src, rec, det, facts):
